@@ -32,6 +32,12 @@ SYMCONST = {
 }
 
 
+def mass_sym(tag):
+    """Atomic mass as data: a positive part plus ten electron masses, so that the mass of
+    every ion (charge < 10) is positive by construction - the physical side condition."""
+    return sp.Symbol(f"mu_{tag}", positive=True) + 10 * SYMCONST["constants.electron_mass"]
+
+
 def class_writes(src: SourceModel, qual: str):
     """Statements ``<CoreClass>.<attr> = expr`` in function *qual* (any depth),
     plus the nested defs they may refer to.  -> list of (clsname, attr, value node, stmt)"""
@@ -108,14 +114,14 @@ class World:
 
     def give_mass_density(self, el: SymObj, tag: str, density=True):
         """Element data as the mass/density loaders leave it: _mass, _density."""
-        self.set(el, _mass=sp.Symbol(f"m_{tag}", positive=True))
+        self.set(el, _mass=mass_sym(tag))
         if density is True:
             self.set(el, _density=sp.Symbol(f"rho_{tag}", positive=True))
         elif density is None:
             self.set(el, _density=None)
 
     def give_iso_mass(self, iso: SymObj, tag: str):
-        self.set(iso, _mass=sp.Symbol(f"m_{tag}", positive=True),
+        self.set(iso, _mass=mass_sym(tag),
                  _abundance=sp.Symbol(f"ab_{tag}", nonnegative=True))
 
     def standard_atoms(self):
